@@ -153,6 +153,65 @@ pub fn exec_ser(st: &mut State, t: &[&str]) -> String {
             }
             load_val(t[1], &bytes)
         },
+        // reload <name> <newname> extra=<k> : serialize, append k junk elements, load back, store under the new name
+        "reload" => {
+            let extra = cut_of(t[3]).unwrap_or(0);
+            macro_rules! rl { ($x:expr, $ty:ty, $variant:ident) => {{
+                let mut buf: Vec<u8> = Vec::new();
+                $x.serialize(&mut buf).unwrap();
+                for i in 0..extra { buf.extend_from_slice(&(0xDEAD_0000u64 + i as u64).to_le_bytes()); }
+                match load_report::<$ty>(&buf) {
+                    Ok((y, rest)) => { let s = format!("ok rest={} eq={} | {}", rest, (y == *$x) as u8, words_to_string(&ser_words(&y))); (s, Some(Obj::$variant(y))) },
+                    Err(e) => (e, None),
+                }
+            }} }
+            let (s, obj) = match st.objs.get(t[1]) {
+                Some(Obj::Raw(x)) => rl!(x, RawVector, Raw), Some(Obj::Int(x)) => rl!(x, IntVector, Int), Some(Obj::Bv(x)) => rl!(x, BitVector, Bv),
+                Some(Obj::Sparse(x)) => rl!(x, SparseVector, Sparse), Some(Obj::Rl(x)) => rl!(x, RLVector, Rl), Some(Obj::Wm(x)) => rl!(x, WaveletMatrix, Wm),
+                None => panic!("harness: reload: no object"),
+            };
+            if let Some(o) = obj { st.objs.insert(t[2].to_string(), o); }
+            s
+        },
+        // seq <name>… : serialize back to back into one stream, then load back in sequence
+        "seq" => {
+            let mut buf: Vec<u8> = Vec::new();
+            for n in &t[1..] {
+                match st.objs.get(*n) {
+                    Some(Obj::Raw(x)) => x.serialize(&mut buf).unwrap(), Some(Obj::Int(x)) => x.serialize(&mut buf).unwrap(),
+                    Some(Obj::Bv(x)) => x.serialize(&mut buf).unwrap(), Some(Obj::Sparse(x)) => x.serialize(&mut buf).unwrap(),
+                    Some(Obj::Rl(x)) => x.serialize(&mut buf).unwrap(), Some(Obj::Wm(x)) => x.serialize(&mut buf).unwrap(),
+                    None => panic!("harness: seq: no object"),
+                }
+            }
+            let mut cur = io::Cursor::new(&buf[..]);
+            let mut flags: Vec<String> = Vec::new();
+            for n in &t[1..] {
+                let okeq = match st.objs.get(*n) {
+                    Some(Obj::Raw(x)) => RawVector::load(&mut cur).map(|y| y == *x), Some(Obj::Int(x)) => IntVector::load(&mut cur).map(|y| y == *x),
+                    Some(Obj::Bv(x)) => BitVector::load(&mut cur).map(|y| y == *x), Some(Obj::Sparse(x)) => SparseVector::load(&mut cur).map(|y| y == *x),
+                    Some(Obj::Rl(x)) => RLVector::load(&mut cur).map(|y| y == *x), Some(Obj::Wm(x)) => WaveletMatrix::load(&mut cur).map(|y| y == *x),
+                    None => unreachable!(),
+                };
+                flags.push(match okeq { Ok(b) => (b as u8).to_string(), Err(_) => "err".to_string() });
+            }
+            format!("ok {} rest={}", flags.join(" "), buf.len() - cur.position() as usize)
+        },
+        // cutload <name> <k> : serialize, cut to k bytes, load
+        "cutload" => {
+            let k = parse_usize(t[2]);
+            macro_rules! cl { ($x:expr, $ty:ty) => {{
+                let mut buf: Vec<u8> = Vec::new();
+                $x.serialize(&mut buf).unwrap();
+                buf.truncate(k);
+                match load_report::<$ty>(&buf) { Ok((_, rest)) => format!("ok rest={}", rest), Err(e) => e }
+            }} }
+            match st.objs.get(t[1]) {
+                Some(Obj::Raw(x)) => cl!(x, RawVector), Some(Obj::Int(x)) => cl!(x, IntVector), Some(Obj::Bv(x)) => cl!(x, BitVector),
+                Some(Obj::Sparse(x)) => cl!(x, SparseVector), Some(Obj::Rl(x)) => cl!(x, RLVector), Some(Obj::Wm(x)) => cl!(x, WaveletMatrix),
+                None => panic!("harness: cutload: no object"),
+            }
+        },
         // sizes <name> : size_in_elements size_in_bytes actual_bytes
         "sizes" => {
             fn sz<T: Serialize>(x: &T) -> String {
@@ -233,6 +292,16 @@ fn read_file_words(path: &std::path::Path) -> String {
 // wr raw <buflen> : calls…      b0 b1 i<v>,<w> c (close) l (len) o (is_open) ; the writer is dropped at the end
 // wr int <width> <buflen> : calls…   p<v> e<v,v,…> c l o
 pub fn exec_writer(t: &[&str]) -> String {
+    if t[0] == "limit" {
+        // limit <bytes> <raw|int …> : run the writer recipe in a child process with RLIMIT_FSIZE = bytes
+        let exe = std::env::current_exe().unwrap();
+        let out = std::process::Command::new(exe).arg("child-limit").arg(t[1]).arg(t[2..].join(" ")).output().unwrap();
+        let s = String::from_utf8_lossy(&out.stdout).trim().to_string();
+        if !out.status.success() && s.is_empty() { return format!("child-died:{:?}", out.status.code()); }
+        // the property only distinguishes "failure reported" (documented panic on push, or error from close) from a complete file
+        if s.split_whitespace().any(|t| t == "panic" || t == "c:err" || t == "new:err") { return "reported".to_string(); }
+        return match s.find("file=") { Some(p) => s[p..].to_string(), None => s };
+    }
     let colon = t.iter().position(|x| *x == ":").expect("harness: wr needs ':'");
     let calls = &t[colon + 1..];
     let path = scratch_file("wr");
